@@ -24,7 +24,8 @@ FieldsOf(k) ==
 ClassesOf(f) ==
   CASE f = "sig_keyid"   -> {"ok", "nonhex64", "multibyte_at_8", "multibyte_at_7", "short", "empty", "number", "len64_chars_not_bytes"}
     [] f = "sig_value"   -> {"ok", "odd_hex", "nonhex", "empty", "huge", "number"}
-    [] f = "signatures"  -> {"one", "none", "many", "not_array", "dup"}
+    \* "two_signers": two functionaries genuinely signed - MORE valid authorised signatures than the threshold asks for
+    [] f = "signatures"  -> {"one", "none", "many", "not_array", "dup", "two_signers"}
     [] f = "type"        -> {"link", "layout", "other", "missing"}
     [] f = "name"        -> {"plain", "empty", "nonascii", "long", "glob", "slash", "dotdot"}
     [] f = "paths"       -> {"plain", "dot_slash_both", "dotdot", "absolute", "empty", "nonascii", "glob", "backslash", "trailing_slash"}
